@@ -731,7 +731,9 @@ func RunCase(r *prng.R, p *Profile, id string) *sexp.S {
 			if r.Intn(8) == 0 {
 				ty = r.Pick("num", "bool", "str")
 			}
-			if r.Intn(4) == 0 {
+			if r.Intn(10) == 0 {
+				ops.Add(sexp.L(sexp.A("hclear"), sexp.N(j))) // the host empties its storer
+			} else if r.Intn(4) == 0 {
 				// another string of exactly the same length
 				ops.Add(sexp.L(sexp.A("hrev"), sexp.N(j), sexp.Str(r.Pick("s", "s", "q", "t"))))
 			} else {
